@@ -51,6 +51,9 @@ def first_diff(a, b, digits):
 
 def run(ctx):
     if getattr(ctx, "replay", None):
+        from .. import ieee
+        if ieee.is_ieee_replay(ctx.replay):
+            return ieee.replay(ctx, ctx.replay)
         return ctx.replay_script(ctx.replay)
     variant_name = "sse2"
     # ---- 1. tables from the running library -> Generated -> theorems re-checked ----
@@ -61,7 +64,7 @@ def run(ctx):
     tabs = g711.parse_tables(lines)
     changed = ctx.set_generated("G711Tables.lean", g711.lean_tables(tabs))
     ctx.notes["generated_tables_changed"] = changed
-    ctx.lean_modules = ["SfProps.C20", "SfProps.C20Quant"]
+    ctx.lean_modules = ["SfProps.C20", "SfProps.C20Quant", "SfProps.C20Ieee"]
     failed = ctx.lean_stage(ctx.lean_modules)
 
     found_input = False
@@ -154,3 +157,7 @@ def run(ctx):
     # ---- 4. ADPCM decoders (IMA WAV/AIFF layouts, MS) against their reference algorithms ----
     from .. import c20_adpcm
     c20_adpcm.run_adpcm(ctx)
+
+    # ---- 5. portable IEEE-754 serialisers and byte-order helpers (vlib/ieee.py) ----
+    from .. import ieee
+    ieee.run_ieee(ctx)
